@@ -148,6 +148,11 @@ CATALOGUE = [
     ("a==a", "drops", None, lambda c: c.a == c.a),
     ("a!=b", "drops", None, lambda c: c.a != c.b),
     ("a==scalar", "drops", None, lambda c: c.a == 1.5),
+    # boolean arrays produced by earlier comparisons, combined with the logical operators (both masks are arguments of the call)
+    ("mask & mask", None, None, lambda c: c.arg(c.a > np.nanmin(c.a.values)) & c.arg(c.a < np.nanmax(c.a.values))),
+    ("mask | mask", None, None, lambda c: c.arg(c.a <= np.nanmin(c.a.values)) | c.arg(c.a >= np.nanmax(c.a.values))),
+    ("~mask", None, None, lambda c: ~c.arg(c.a > np.nanmin(c.a.values))),
+    ("mask & ndarray", None, None, lambda c: c.arg(c.a > np.nanmin(c.a.values)) & c.arg(c.a.values < np.nanmax(c.a.values))),
     ("apply", None, None, lambda c: c.a.apply(np.abs)),
     ("np.sin", None, None, lambda c: np.sin(c.a)),
     # ---- reductions ---------------------------------------------------------------------------------------------
@@ -229,6 +234,13 @@ CATALOGUE = [
      lambda c: c.a.reindex_axis(c.arg(np.concatenate([[c.a.labels[0].min() - 3], c.a.labels[0][::-1]])), axis=c.first)),
     ("reindex_like", "keeps", lambda c: list(c.a.dims), lambda c: c.a.reindex_like(c.b)),
     ("sort_axis", "keeps", lambda c: list(c.a.dims), lambda c: c.a.sort_axis(c.axk())),
+    # ... along an axis that holds a single label (the array came out of an earlier selection and carries the metadata along)
+    ("sort_axis on a single label", "keeps", lambda c: list(c.a.dims), lambda c: c.a.take_axis([c.k % c.a.shape[0]], axis=0, indexing="position").sort_axis(0)),
+    ("sort_axis on a single label (last axis)", "keeps", lambda c: list(c.a.dims), lambda c: c.a.take_axis([0], axis=-1, indexing="position").sort_axis(c.a.dims[-1])),
+    ("reindex_axis on a single label", "keeps", lambda c: list(c.a.dims), lambda c: (lambda s_: s_.reindex_axis(s_.labels[0].copy(), axis=0))(c.a.take_axis([0], axis=0, indexing="position"))),
+    ("take_axis on a single label", "keeps", lambda c: list(c.a.dims), lambda c: c.a.take_axis([0], axis=0, indexing="position").take_axis([0, 0], axis=0, indexing="position")),
+    ("cumsum along a single label", "keeps", None, lambda c: c.a.take_axis([0], axis=0, indexing="position").cumsum(axis=0)),
+    ("transpose with a single label", "keeps", lambda c: list(c.a.dims), lambda c: c.a.take_axis([0], axis=0, indexing="position").transpose()),
     ("sort_axis key", "keeps", lambda c: list(c.a.dims), lambda c: c.a.sort_axis(0, key=lambda x: -x)),
     ("dropna", "keeps", lambda c: list(c.a.dims), lambda c: c.a.dropna(axis=c.axk())),
     ("dropna minvalid", "keeps", lambda c: list(c.a.dims), lambda c: c.a.dropna(axis=c.axk(), minvalid=1)),
